@@ -38,7 +38,7 @@ def contW : Option Call → Nat
 def callW (cfg : Cfg) : Call → Nat
   | .write n => n + 27 | .wwait n => n + 26 | .wcommit n => n + 26 | .wfill => cfg.size + 3
   | .rfrom _ ms => rfW ms + 31 | .rfcommit _ _ => 1 | .rfret _ _ => 1
-  | .read n => n + 24 | .peek n => n + 15 | .rwait n => n + 15 | .use => cfg.size + 3 | .commit _ => 15
+  | .read n => n + 28 | .peek n => n + 15 | .rwait n => n + 15 | .use => cfg.size + 3 | .commit _ => 15
   | .close => 24 | .len => 3
 
 /-- rank of a program counter: an upper bound on the own steps to the end of the call, where a
@@ -46,26 +46,26 @@ def callW (cfg : Cfg) : Call → Nat
 def pcRank (sh : Sh) (cur : Option Call) : Pc → Nat
   | .idle => 0
   | .x10 => 23 | .x11 => 22 | .x12 => 21 | .x13 => 12 | .x14 => 11 | .x15 => 10 | .x16 => 1
-  | .l20 => match cur with | some (.read n) => n + 22 | _ => 2
-  | .l21 _ => match cur with | some (.read n) => n + 21 | _ => 1
+  | .l20 => match cur with | some (.read n) => n + 26 | _ => 2
+  | .l21 _ => match cur with | some (.read n) => n + 25 | _ => 1
   | .s30 n => n + 25 + contW cur | .s31 n => n + 24 + contW cur | .s32 n _ => n + 23 + contW cur
   | .s33 n _ => n + 22 + contW cur | .s34 n _ => n + 16 + contW cur
   | .s35 _ _ => 1 + contW cur | .s36 n _ => n + 15 + contW cur | .s36w n _ => n + 14 + contW cur
-  | .s37 n _ => n + 21 + contW cur | .s38 n _ _ => n + 15 + contW cur
+  | .s37 n _ => n + 21 + contW cur | .s38 n _ _ => n + 15 + contW cur | .s39 n _ => n + 14 + contW cur
   | .w40 n => n + 26 + contW cur | .w41c n _ j => (n - j) + 13 | .w42 _ _ => 12 | .w43 _ => 11 | .w44 _ => 10 | .w45 _ => 1
   | .c50 _ _ => 12 + contW cur | .c51 _ => 11 + contW cur | .c52 _ => 10 + contW cur | .c53 _ => 1 + contW cur
   | .f0 _ len j => (len - j) + 1
   | .g110 _ ms => rfW ms + 30 | .g112 _ ms _ => rfW ms + 10 | .g111 _ ms _ _ => rfW ms + 9
   | .g111c _ ms _ n j => (n - j) + n + 68 + rfW ms | .g111r _ ms n => n + 67 + rfW ms
-  | .r60 n => n + 23
-  | .r61 n => if sh.cseq < sh.pseq then n + 15 else n + 20
-  | .r62 n cpos => if cpos < sh.pseq then n + 14 else n + 19
+  | .r60 n => n + 27
+  | .r61 n => if sh.cseq < sh.pseq then n + 15 else n + 24
+  | .r62 n cpos => if cpos < sh.pseq then n + 14 else n + 23
   | .r63c _ _ k j _ => (k - j) + 13
   | .r64 _ _ _ => 12 | .r65 _ _ _ => 11 | .r66 _ _ _ => 10 | .r67 _ _ _ => 1
-  | .r73 n _ => n + 18 | .r74 n _ => n + 17 | .r75 n _ => n + 12 | .r76 _ _ => 1 | .r77 n _ => n + 11
-  | .r77w n _ => n + 10 | .r78 n _ => n + 17 | .r79 n => n + 16
+  | .r73 n _ => n + 22 | .r74 n _ => n + 21 | .r75 n _ => n + 20 | .r75r n _ => n + 17 | .r76 _ _ => 1 | .r77 n _ => n + 19
+  | .r77w n _ => n + 18 | .r78 n _ => n + 21 | .r79 n => n + 16
   | .p80 _ n => n + 14 | .p81 _ n _ => n + 13 | .p82 _ n _ => n + 12 | .p83 _ n _ => n + 11 | .p84 _ n _ => n + 10
-  | .p85 _ _ _ => 1 | .p86 _ n _ => n + 9 | .p86w _ n _ => n + 8 | .p87 _ n _ => n + 15 | .p88 _ n _ _ => n + 3
+  | .p84r _ n _ => n + 4 | .p85 _ _ _ => 1 | .p86 _ n _ => n + 9 | .p86w _ n _ => n + 8 | .p87 _ n _ => n + 15 | .p88 _ n _ _ => n + 3
   | .p89c _ _ m _ j _ => (m - j) + 1
   | .k100 _ => 14 | .k101 _ _ => 13 | .k102 _ _ => 12 | .k103 _ => 11 | .k104 _ => 10 | .k105 _ => 1
   | .u0 _ m j _ => (m - j) + 1
@@ -256,16 +256,18 @@ theorem rank_own (cfg : Cfg) (sh sh' : Sh) (me : Tid) (th th' : Th)
       simp only [thRank, progW, pcRank]
       omega
     · simp only [thRank, progW, pcRank, Th.goto]; omega
-  case s31 n =>
+  case s39 n ppos =>
     tstep_norm
     rcases hs with ⟨h1, rfl, rfl⟩ | ⟨h1, rfl, rfl⟩
-    · simp only [thRank, progW, pcRank, Th.goto]; omega
+    · refine Nat.lt_of_le_of_lt (Nat.add_le_add_right (thRank_wfsErr cfg sh _ _) _) ?_
+      simp only [thRank, progW, pcRank]
+      omega
     · obtain ⟨a, b⟩ := pcRank_wfsOk cfg sh
-        { pc := Pc.s31 n, prog := prog, cur := cur, slice := slice, filled := filled, view := view, pending := pending } sh.pseq n
+        { pc := Pc.s39 n ppos, prog := prog, cur := cur, slice := slice, filled := filled, view := view, pending := pending } ppos n
       have h1 : thRank cfg sh (wfsOk cfg
-          { pc := Pc.s31 n, prog := prog, cur := cur, slice := slice, filled := filled, view := view, pending := pending } sh.pseq n)
+          { pc := Pc.s39 n ppos, prog := prog, cur := cur, slice := slice, filled := filled, view := view, pending := pending } ppos n)
           ≤ progW cfg prog + (n + 13 + contW cur) := by unfold thRank; rw [b]; dsimp only at a ⊢; omega
-      have h2 : thRank cfg sh ⟨Pc.s31 n, prog, cur, slice, filled, view, pending, res⟩ = progW cfg prog + (n + 24 + contW cur) := rfl
+      have h2 : thRank cfg sh ⟨Pc.s39 n ppos, prog, cur, slice, filled, view, pending, res⟩ = progW cfg prog + (n + 14 + contW cur) := rfl
       omega
   case s35 n ppos =>
     tstep_norm
@@ -273,17 +275,6 @@ theorem rank_own (cfg : Cfg) (sh sh' : Sh) (me : Tid) (th th' : Th)
     refine Nat.lt_of_le_of_lt (Nat.add_le_add_right (thRank_wfsErr cfg _ _ _) _) ?_
     simp only [thRank, progW, pcRank, noteT_unlock]
     omega
-  case s38 n ppos cpos =>
-    tstep_norm
-    obtain ⟨e1, e2⟩ := hs
-    subst e2
-    have hn : noteT sh' = noteT sh := by rw [← e1, noteT_unlock]; rfl
-    obtain ⟨a, b⟩ := pcRank_wfsOk cfg sh' ⟨Pc.s38 n ppos cpos, prog, cur, slice, filled, view, pending, none⟩ ppos n
-    have h1 : thRank cfg sh' (wfsOk cfg ⟨Pc.s38 n ppos cpos, prog, cur, slice, filled, view, pending, none⟩ ppos n)
-        ≤ progW cfg prog + (n + 13 + contW cur) := by unfold thRank; rw [b]; dsimp only at a ⊢; omega
-    have h2 : thRank cfg sh ⟨Pc.s38 n ppos cpos, prog, cur, slice, filled, view, pending, res⟩ = progW cfg prog + (n + 15 + contW cur) := rfl
-    rw [hn]
-    exact Nat.lt_of_le_of_lt (Nat.add_le_add_right h1 _) (by rw [h2]; omega)
   case c53 n =>
     tstep_norm
     obtain ⟨rfl, rfl⟩ := hs
